@@ -243,6 +243,15 @@ def result_pipeline(cx: Cx, fn, paths: List[Path], p: Path, ret: Term, table=Non
     if isinstance(src, App) and src.fn in ('.imap_unordered', '.imap', '.map') and len(src.args) in (3, 4) and \
             all(k == 'chunksize' for k, _ in (src.kw or ())):       # chunksize only batches the dispatch (trusted library)
         F, W, x, via = src.args[1], src.args[2], v, src.fn
+        # the worker processes belong to this call: a pool kept between calls is a snapshot of the process as it was when the FIRST
+        # call forked it (class-level configuration made since is missing in it), so later sweeps differ from in-process runs
+        pool_t = strip_versions(src.args[0])
+        made_here = isinstance(pool_t, App) and pool_t.fn in ('call', 'new') and pool_t.args and isinstance(pool_t.args[0], Sym) and \
+            pool_t.args[0].name.rsplit('.', 1)[-1] == 'Pool'
+        if not made_here and not (isinstance(pool_t, App) and pool_t.fn in ('.__enter__',) and pool_t.args and
+                                  isinstance(strip_versions(pool_t.args[0]), App) and 'Pool' in repr(strip_versions(pool_t.args[0]))[:60]):
+            return (f"the pool arm maps over {pool_t!r}, which is not a Pool created in this call: worker processes kept between calls "
+                    f"run later sweeps in a stale copy of the process")
         # ... provided it is at least 1 (Pool.imap raises ValueError for 0; Pool.map takes None as "choose for me")
         chunks = list(src.args[3:]) + [cv for k, cv in (src.kw or ()) if k == 'chunksize']
         for cz in chunks:
